@@ -1,6 +1,7 @@
 package main
 
 import (
+	"bufio"
 	"bytes"
 	"encoding/binary"
 	"encoding/json"
@@ -8,6 +9,7 @@ import (
 	"io"
 	"math"
 	"sort"
+	"testing/iotest"
 
 	"github.com/paulmach/orb"
 	"github.com/paulmach/orb/encoding/ewkb"
@@ -33,13 +35,38 @@ type wsOp struct {
 type chunkReader struct {
 	r io.Reader
 	n *int
+	// eager: report io.EOF together with the last bytes instead of on a separate empty read (io.Reader allows both)
+	eager bool
 }
 
 func (c chunkReader) Read(p []byte) (int, error) {
 	if *c.n > 0 && len(p) > *c.n {
 		p = p[:*c.n]
 	}
-	return c.r.Read(p)
+	n, err := c.r.Read(p)
+	if b, ok := c.r.(interface{ Len() int }); ok && c.eager && err == nil && b.Len() == 0 {
+		err = io.EOF
+	}
+	return n, err
+}
+
+// c01Reader wraps encoded bytes in one of the shapes an io.Reader may legally have: everything at once, one byte
+// or half the request per read, through a bufio.Reader, and with io.EOF delivered together with the last bytes.
+func c01Reader(rng interface{ Intn(int) int }, data []byte) io.Reader {
+	base := bytes.NewReader(data)
+	switch rng.Intn(6) {
+	case 0:
+		return iotest.DataErrReader(base)
+	case 1:
+		return iotest.OneByteReader(base)
+	case 2:
+		return iotest.HalfReader(base)
+	case 3:
+		return bufio.NewReaderSize(base, 16)
+	case 4:
+		return iotest.DataErrReader(iotest.HalfReader(base))
+	}
+	return base
 }
 
 // limitWriter accepts budget more bytes, then fails (a short write with an error).
@@ -80,7 +107,7 @@ func wsRun(c *ctx, shard int, pkg string, ops []wsOp) {
 	var decW *wkb.Decoder
 	var decE *ewkb.Decoder
 	w := limitWriter{&pipe, &budget}
-	r := chunkReader{&pipe, &chunk}
+	r := chunkReader{&pipe, &chunk, c.rng.Intn(2) == 0}
 	if pkg == "wkb" {
 		encW, decW = wkb.NewEncoder(w), wkb.NewDecoder(r)
 	} else {
